@@ -267,6 +267,10 @@ OpRetain(tb, t, P) ==
                         \* successor) holds a tombstone / an element: must not become FREE
                         \o (IF tb.data[Cap(tb)].st > 1 /\ El(tb.data[Cap(tb)])[1] \notin P
                             THEN (IF tb.data[1].st = 1 THEN "+last0tomb" ELSE IF tb.data[1].st > 1 THEN "+last0occ" ELSE "+last0free")
+                                 \* ... while a kept element's probe chain wraps around through the last slot
+                                 \o (IF \E p \in 2 .. Cap(tb) : tb.data[p].st > 1 /\ tb.data[p].k \in P
+                                                                  /\ (tb.data[p].h % Cap(tb)) + 1 > p
+                                     THEN "+wrapkept" ELSE "")
                             ELSE "")
                         \o (IF ~shrink THEN "" ELSE IF Cap(t2) = 0 THEN "+shrink0"
                             ELSE IF Cap(t2) < Cap(tb) THEN "+shrink" ELSE "+rehash")]
